@@ -8,7 +8,7 @@
    version whose value token is 1000 + (index of the name in svc) and refreshes the store. *)
 From Coq Require Import List Bool NArith ZArith.
 Import ListNotations.
-From Setec Require Import Base.SMap Client.Store Client.Fields Corr.Common.
+From Setec Require Import Base.SMap Base.Path Client.Store Client.Fields Corr.Common.
 
 Definition ty_of (t : N) : ftype :=
   match t with
@@ -45,8 +45,36 @@ Inductive obs := Ob (errclass nerrs : N) (reqs : list name) (locs : list oloc) (
 Inductive case :=
 | CRun (md : mode) (a : arg) (pfx : bstr) (svc : list (name * (N * N))) (unmfail : list N)
        (jt : list (N * N * (N * bool))) (o : obs)
-| CJoin (a b r : bstr)        (* path.Join(a, b) = r of the Go library (ties path_join2) *)
+| CJoin (a b r : bstr)        (* path.Join(a, b) = r of the Go library (ties path_join2 and go_join) *)
+| CJoinRow (alpha : list N) (swap : bool) (a h : bstr) (n : nat) (codes : list N)
+       (* exhaustive sweep: for the prefix a and EVERY name b = h ++ w, w over the alphabet alpha of length
+          <= n in the order of [upto alpha n] (swap: a is the NAME and b runs over the prefixes; the head h
+          only serves to cut long rows into pieces), the Go library's
+          path.Join(prefix, name), each result written as one number
+          (digits = 1 + index of the byte in alpha, base |alpha|+1; 0 = a byte outside alpha) *)
 | CDomain (what : N).         (* inputs outside the property's domain, recorded only *)
+
+(* all strings over alpha of length exactly k / up to n, shortest first, in the order of alpha *)
+Fixpoint level (alpha : list N) (k : nat) : list bstr :=
+  match k with
+  | O => [[]]
+  | S k' => flat_map (fun a => map (cons a) (level alpha k')) alpha
+  end.
+Fixpoint upto (alpha : list N) (n : nat) : list bstr :=
+  match n with O => level alpha O | S n' => upto alpha n' ++ level alpha n end.
+
+Fixpoint idx_in (c : N) (alpha : list N) (i : N) : N :=
+  match alpha with [] => 0%N | x :: r => if N.eqb c x then i else idx_in c r (N.succ i) end.
+Definition code_of (alpha : list N) (s : bstr) : N :=
+  let base := N.succ (N.of_nat (length alpha)) in
+  fold_left (fun acc c => (acc * base + idx_in c alpha 1)%N) s 0%N.
+
+(* both forms of the path model must give the library's answer *)
+Definition join_row_ok (alpha : list N) (swap : bool) (a h : bstr) (n : nat) (codes : list N) : bool :=
+  let others := upto alpha n in
+  let pair w := if swap then (h ++ w, a) else (a, h ++ w) in
+  list_beq N.eqb (map (fun b => let '(x, y) := pair b in code_of alpha (path_join2 x y)) others) codes
+  && list_beq N.eqb (map (fun b => let '(x, y) := pair b in code_of alpha (go_join [x; y])) others) codes.
 
 Fixpoint assoc {X} (n : name) (l : list (name * X)) : option X :=
   match l with [] => None | (k, x) :: r => if neqb n k then Some x else assoc n r end.
@@ -159,6 +187,7 @@ Definition check_run (md : mode) (a : arg) (pfx : bstr) svc unmfail jt (o : obs)
 Definition check (c : case) : bool :=
   match c with
   | CRun md a pfx svc unmfail jt o => check_run md a pfx svc unmfail jt o
-  | CJoin a b r => bytes_beq (path_join2 a b) r
+  | CJoin a b r => bytes_beq (path_join2 a b) r && bytes_beq (go_join [a; b]) r
+  | CJoinRow alpha swap a h n codes => join_row_ok alpha swap a h n codes
   | CDomain _ => true
   end.
